@@ -145,6 +145,7 @@ PROPS = {
                      "below the capacity of the width; non-trivial = non-zero value"),
     "C17": dict(level="proof", theorems=T("C17", "C17_step_bounds", "C17_le_four", "C17_arcless", "C17_regular", "C17_certificate_upper", "C17_certificate_lower") + T("C17b", "C17_capStep_entry", "C17_settled_residual", "C17_stop_certificate", "C17_certificate_rat", "C17_stop_accuracy") +
                 T("C17c", "C17F_rowSum", "C17F_stop_certificate", "C17F_stop_accuracy", "C17F_step_ok") +
+                T("C17d", "C17F_step_bounds", "C17F_total", "C17F_le_four", "C17F_arcless", "C17F_regular") +
                 T("FloatSpec", "roundPos_spec", "roundDouble_isB64", "roundDouble_nearest", "roundDouble_none_iff", "roundDouble_of_isB64"),
                 not_proved=["that the stopping rule fires within the iteration budget with a smallest entry delta large enough for 1e-4 "
                             "under the spectral-gap precondition (needs Perron-Frobenius convergence RATES): TESTED against the "
